@@ -682,7 +682,13 @@ impl LanguageServer for Backend {
     }
 
     async fn did_change_configuration(&self, params: DidChangeConfigurationParams) {
-        self.update_config_from_obj(params.settings).await;
+        // A client that serves its settings through `workspace/configuration` announces a change
+        // without carrying it: ask for the settings before the linters are rebuilt from them.
+        if params.settings.is_null() {
+            self.pull_config().await;
+        } else {
+            self.update_config_from_obj(params.settings).await;
+        }
 
         let urls: Vec<Url> = {
             let mut doc_lock = self.doc_state.lock().await;
